@@ -244,7 +244,7 @@ def check_files(res):
     try:
         for data in (b"", b"a", b"a\xff\x00b", b"0123456789"):
             for chunk_size in (1, 3, 64):
-                for so, sw in ((None, 0), (2, 0), (-1, 2), (50, 0)):
+                for so, sw in ((None, 0), (0, 0), (2, 0), (0, 2), (-1, 2), (-len(data), 2), (50, 0)):
                     if sw == 2 and -so > len(data):
                         continue
                     for buffer_now in (False, True):
@@ -270,6 +270,17 @@ def check_files(res):
         copy = _copy_content(volatile)
         target = {"x": C.text_content("old")}
         gather_details({"x": volatile, "y": volatile}, target)
+        # a source whose callback hands out the very list it keeps appending to
+        kept = [b"k1"]
+        keeper = C.Content(ContentType("text", "plain", {"charset": "utf8"}), lambda: kept)
+        kcopy = _copy_content(keeper)
+        ktarget = {}
+        gather_details({"k": keeper}, ktarget)
+        kept.append(b"k2")
+        kept[0] = b"K1"
+        res.evaluations += 2
+        if b"".join(kcopy.iter_bytes()) != b"k1" or b"".join(ktarget["k"].iter_bytes()) != b"k1":
+            problems.append(("snapshot", "copies of a content whose source list was later mutated read %r / %r, expected b'k1'" % (b"".join(kcopy.iter_bytes()), b"".join(ktarget["k"].iter_bytes()))))
         with open(path, "wb") as f:
             f.write(b"file-v1")
         fc = C.content_from_file(path, buffer_now=False)
